@@ -39,7 +39,7 @@ impl DEntry {
     }
 }
 
-fn parse_entry(v: &Value) -> Result<DEntry, String> {
+pub fn parse_entry(v: &Value) -> Result<DEntry, String> {
     let o = v.as_object().ok_or("entry is not an object")?;
     let apath = o
         .get("apath")
@@ -439,4 +439,59 @@ pub fn ref_stitch(view: &ArchiveView, band: u32) -> Vec<(u32, DEntry)> {
             .map(|(i, _)| *i);
     }
     out
+}
+
+/// Bytes of a file entry reassembled from its addresses, or why that is impossible.
+pub fn reassemble(view: &ArchiveView, e: &DEntry) -> Result<Vec<u8>, &'static str> {
+    let mut out = Vec::new();
+    for a in &e.addrs {
+        match view.blocks.get(&a.hash) {
+            Some((_, BlockView::Ok { data })) => {
+                let (s, l) = (a.start as usize, a.len as usize);
+                if s.checked_add(l).map(|end| end > data.len()).unwrap_or(true) {
+                    return Err("address_past_block_end");
+                }
+                out.extend_from_slice(&data[s..s + l]);
+            }
+            Some((_, BlockView::Empty)) => return Err("block_empty"),
+            Some((_, BlockView::Bad(_))) => return Err("block_undecodable"),
+            None => return Err("block_missing"),
+        }
+    }
+    Ok(out)
+}
+
+/// Conserve's IndexEntry seen through the same lens as decoded entries.
+pub fn dentry_of(e: &conserve::IndexEntry) -> DEntry {
+    parse_entry(&serde_json::to_value(e).expect("IndexEntry serialises")).expect("IndexEntry has apath and kind")
+}
+
+/// Compare the metadata Conserve recorded for a path with what the walker saw.
+/// Returns the name of the first differing field.
+pub fn entry_vs_snapshot(e: &DEntry, s: &crate::tree::SNode, owner: bool) -> Option<&'static str> {
+    let kind = match s.kind {
+        'f' => "File",
+        'd' => "Dir",
+        'l' => "Symlink",
+        _ => "?",
+    };
+    if e.kind != kind {
+        return Some("kind");
+    }
+    if (e.mtime, e.mtime_nanos) != (s.mtime.0, s.mtime.1 as u64) {
+        return Some("mtime");
+    }
+    if e.unix_mode != Some(s.mode as u64) {
+        return Some("unix_mode");
+    }
+    if s.kind == 'l' && e.target.as_deref() != Some(s.target.as_str()) {
+        return Some("target");
+    }
+    if s.kind == 'f' && e.size() != s.data.len() as u64 {
+        return Some("size");
+    }
+    if !owner && (e.user.is_some() || e.group.is_some()) {
+        return Some("owner_recorded_despite_option");
+    }
+    None
 }
